@@ -31,6 +31,8 @@ from ..rules.modes import declared_modes, mode_behaviour, multipass_execute, mod
 
 def run(ck):
     ctx = ck.ctx
+    if ck.wants("C08.18"):
+        no_value_carried_between_groups(ck, "C08.18")
     p = ctx.p
     ck.clause("C08.1", "every declared mode is handled and returns rows explicitly; factory dispatch")
     ck.clause("C08.2", "mode table agreement between 'all', 'joined' and 'separate'; file naming")
@@ -254,6 +256,59 @@ def _save_writes_its_argument(ck):
                          required=f"AlignmentResults(..., rows={rows_param[1]})")
         break
     ck.floor("C08.8 writeAlignments call in saveAdditionalOutput", n, 1)
+
+
+def no_value_carried_between_groups(ck, rule):
+    """AlignmentResults.resolve decides group by group (one query on one reference): every name a group's decision reads is bound in
+    THAT iteration on every path to the read. A name bound only on some paths of the loop body (and, to make the code run, once in
+    front of the loops) still holds what an earlier group left: a later pair of records that is not eligible re-appends the earlier
+    joined record and never reaches the un-joined list - its two single-pass records appear nowhere."""
+    import copy
+    from ..rules.common import definitely_assigned
+    p = ck.ctx.p
+    ck.clause(rule, "the join decides each (reference, query) group on values of that group: no name read in the loop body of "
+                    "AlignmentResults.resolve is bound only on some paths of the body (a value left by an earlier group)")
+    res_cls = p.find_class("AlignmentResults")
+    fn = res_cls.methods.get("resolve") if res_cls else None
+    if fn is None:
+        raise AnalysisError("AlignmentResults.resolve not found")
+    loops = [x for x in ast.walk(fn.node) if isinstance(x, ast.For)]
+    inner = [lp for lp in loops if not any(isinstance(y, ast.For) for b in lp.body for y in ast.walk(b))]
+    if not inner:
+        raise AnalysisError(f"{fn.where}: the loop over the groups was not found")
+    n = 0
+    for lp in inner:
+        fake = ast.FunctionDef(name="_body", args=ast.arguments(posonlyargs=[], args=[], kwonlyargs=[], kw_defaults=[], defaults=[]),
+                               body=copy.deepcopy(lp.body), decorator_list=[], returns=None, type_comment=None, type_params=[])
+        ast.fix_missing_locations(fake)
+        da = definitely_assigned(fake)
+        stored = {x.id for b in fake.body for x in ast.walk(b) if isinstance(x, ast.Name) and isinstance(x.ctx, ast.Store)} | \
+            {x.target.id for b in fake.body for x in ast.walk(b) if isinstance(x, ast.NamedExpr) and isinstance(x.target, ast.Name)}
+        # the targets of this loop and of the loops around it are bound anew in every iteration
+        stored -= {y.id for o in loops if o is lp or any(z is lp for z in ast.walk(o)) for y in ast.walk(o.target) if isinstance(y, ast.Name)}
+        for st in [x for b in fake.body for x in ast.walk(b) if isinstance(x, ast.stmt)]:
+            if id(st) not in da:
+                continue
+            own = st.test if isinstance(st, (ast.If, ast.While)) else st.iter if isinstance(st, ast.For) else st
+            if isinstance(st, (ast.Try, ast.FunctionDef, ast.ClassDef)):
+                continue
+            comp_bound = {y.id for c in ast.walk(own) if isinstance(c, ast.comprehension) for y in ast.walk(c.target) if isinstance(y, ast.Name)}
+            for x in ast.walk(own):
+                if isinstance(x, ast.Name) and isinstance(x.ctx, ast.Load) and x.id in stored and x.id not in da[id(st)] and x.id not in comp_bound:
+                    n += 1
+                    ck.violation(rule, f"{short(fn)}:{x.id}:carried", where(fn, lp),
+                                 f"`{x.id}` is read in the group loop where it is bound only on some paths of the same iteration: for a "
+                                 "group that does not take those paths it still holds the previous group's value - after the first join "
+                                 "every later pair of records that is not eligible re-appends that joined record and is itself lost from "
+                                 "the un-joined list (the _1 file of 'joined' misses both records)",
+                                 found=ast.unparse(own)[:100] if not isinstance(own, ast.stmt) else ast.unparse(own).split("\n")[0][:100],
+                                 required=f"`{x.id}` assigned on every path of the iteration before it is read")
+                    break
+            if n:
+                break
+    ck.floor(rule + " group loops of AlignmentResults.resolve", len(inner), 1)
+    if not n:
+        ck.ok(rule, f"{short(fn)}:carried", fn.where, "every name read in the group loop is bound in the same iteration")
 
 
 def _file_naming(ck, rule="C08.2"):
